@@ -489,3 +489,101 @@ fn c13_from_superset_down_dualdvec_n2_present() {
 fn c13_from_superset_down_dualdvec_absent() {
     check_from_superset_dyn(false);
 }
+
+// ---------------------------------------------------------------- dimension 0
+// A PRESENT derivative with zero entries (`Derivative::some` of an empty vector/matrix) and an
+// absent one.  Every element-wise predicate over the entries is vacuous here, so this is the
+// only place where `all` and `any` in `Derivative::is_in_subset` differ.
+// Asserted: is_in_subset(y) is true, from_superset(y) is Some, the two agree, the real part is
+// the `as` cast, presence (present-but-empty vs absent) is kept by from_superset,
+// to_superset and the round trip.  Real part: all bit patterns (NaN -> NaN).
+fn check_dim0<S, P, A, B>(present: bool)
+where
+    S: AnyVal + HasView<A> + SubsetOf<P>,
+    P: AnyVal + HasView<B> + SupersetOf<S>,
+    A: CastTo<B>,
+    B: CastTo<A>,
+{
+    // superset -> subset
+    let y = if present { P::any_present() } else { P::any_val() };
+    let claimed = S::is_in_subset(&y);
+    let got = S::from_superset(&y);
+    assert!(claimed, "dim 0: is_in_subset(y) is true (float conversions never fail; no entries to object)");
+    assert!(got.is_some(), "dim 0: from_superset(y) is Some");
+    assert!(got.is_some() == claimed, "dim 0: from_superset(y).is_some() == is_in_subset(y)");
+    if let Some(z) = got {
+        assert!(is_cast_of(&y.view(), &z.view()), "dim 0: from_superset keeps presence (present-but-empty stays present, absent stays absent); re is the `as` cast");
+    }
+    // subset -> superset -> subset
+    let x = if present { S::any_present() } else { S::any_val() };
+    let up: P = x.to_superset();
+    assert!(is_cast_of(&x.view(), &up.view()), "dim 0: to_superset keeps presence; re is the `as` cast");
+    assert!(S::is_in_subset(&up), "dim 0: to_superset(x) is in the subset");
+    match up.to_subset() {
+        Some(b) => assert!(view_same(&x.view(), &b.view()) || !same_width_or_widening::<A, B>(), "dim 0: to_superset(x).to_subset() == Some(x), presence kept"),
+        None => assert!(false, "dim 0: to_superset(x).to_subset() is Some"),
+    }
+}
+/// the exact round trip only holds when the superset float is at least as wide
+fn same_width_or_widening<A: Fl, B: Fl>() -> bool {
+    std::mem::size_of::<A>() <= std::mem::size_of::<B>()
+}
+macro_rules! c13_dim0 {
+    ($present:ident, $absent:ident, $down_present:ident, $T32:ty, $T64:ty) => {
+        /// f64->f64, f32->f32, and f32 as subset of f64 (default checks)
+        #[kani::proof]
+        #[kani::unwind(9)] // view helpers loop over MAXP = 7 slots
+        fn $present() {
+            check_dim0::<$T64, $T64, f64, f64>(true);
+            check_dim0::<$T32, $T32, f32, f32>(true);
+            check_dim0::<$T32, $T64, f32, f64>(true);
+        }
+        #[kani::proof]
+        #[kani::unwind(9)] // view helpers loop over MAXP = 7 slots
+        fn $absent() {
+            check_dim0::<$T64, $T64, f64, f64>(false);
+            check_dim0::<$T32, $T64, f32, f64>(false);
+        }
+        /// f64 as subset of f32 (narrowing of the real part: --no-overflow-checks)
+        #[kani::proof]
+        #[kani::unwind(9)] // view helpers loop over MAXP = 7 slots
+        fn $down_present() {
+            check_dim0::<$T64, $T32, f64, f32>(true);
+        }
+    };
+}
+c13_dim0!(c13_dim0_dualsvec_present, c13_dim0_dualsvec_absent, c13_dim0_down_dualsvec_present, DualSVec32<0>, DualSVec64<0>);
+c13_dim0!(c13_dim0_dual2svec_present, c13_dim0_dual2svec_absent, c13_dim0_down_dual2svec_present, Dual2SVec32<0>, Dual2SVec64<0>);
+
+/// Dyn with run-time length 0: eps = Some(empty DVector) resp. absent
+fn check_dim0_dyn(present: bool) {
+    let y = any_dualdvec64(0, present);
+    assert!(dyn_absent64(&y.eps) == !present, "dim 0 (Dyn): constructed as requested");
+    let claimed = <DualDVec64 as SubsetOf<DualDVec64>>::is_in_subset(&y);
+    let got = <DualDVec64 as SubsetOf<DualDVec64>>::from_superset(&y);
+    assert!(claimed, "dim 0 (Dyn): is_in_subset(y) is true");
+    assert!(got.is_some() == claimed, "dim 0 (Dyn): from_superset(y).is_some() == is_in_subset(y)");
+    if let Some(z) = got {
+        assert!(same_or_nan(z.re, y.re), "dim 0 (Dyn): from_superset keeps re");
+        assert!(dyn_absent64(&z.eps) == !present, "dim 0 (Dyn): from_superset keeps presence");
+        assert!(z.eps.clone().unwrap_generic(Dyn(0), U1).len() == 0, "dim 0 (Dyn): length stays 0");
+    }
+    let x = any_dualdvec32(0, present);
+    let up: DualDVec64 = x.to_superset();
+    assert!(same_or_nan(up.re, x.re as f64) && dyn_absent64(&up.eps) == !present, "dim 0 (Dyn): to_superset keeps presence, re is the `as` cast");
+    assert!(<DualDVec32 as SubsetOf<DualDVec64>>::is_in_subset(&up), "dim 0 (Dyn): to_superset(x) is in the subset");
+    match <DualDVec32 as SubsetOf<DualDVec64>>::from_superset(&up) {
+        Some(b) => assert!(same_or_nan(b.re, x.re) && dyn_absent32(&b.eps) == !present, "dim 0 (Dyn): round trip keeps re and presence"),
+        None => assert!(false, "dim 0 (Dyn): round trip succeeds"),
+    }
+}
+#[kani::proof]
+#[kani::unwind(3)]
+fn c13_dim0_dualdvec_present() {
+    check_dim0_dyn(true);
+}
+#[kani::proof]
+#[kani::unwind(3)]
+fn c13_dim0_dualdvec_absent() {
+    check_dim0_dyn(false);
+}
